@@ -357,7 +357,7 @@ def erPrepareNext (w : World) (st : St) (r : ER) : Option Err × St × ER × Boo
     | .none =>
       let compressed := o.cReqComp.isSome
       if o.contentLen != -1 then
-        if o.contentLen > o.conf.maxMsg then (some (.rpc 8), st, r, false)
+        if o.contentLen > o.conf.maxMsg then (some (.rpc 8), (reportError w st (.rpc 8)).1, r, (reportError w st (.rpc 8)).2)
         else finish st { r with current := .hardLimit o.contentLen.toNat 0 } { compressed := compressed, length := o.contentLen.toNat }
       else
         let (data, e, st, p) := copyAllLimited w true (bufferedBodyLimit o.conf.maxMsg) st.src.fuel st 0 []
